@@ -171,6 +171,12 @@ def run_semantic(ctx, progs):
         c1 = 'a exists\nb == 1 or\nc == 2\n'
         c2 = 'rule default {\n  a exists\n  b == 1 or\n  c == 2\n}\n'
         tb.append((c1, c2, rng.choice([{"a": 1, "b": 1}, {"a": 1, "c": 3}, {"b": 1}, {}])))
+    # documents in which the selection of the type block is unresolved: no `Resources`, an empty one, one that is not a struct
+    # (recorded finding: the type block raises an evaluation error where the equivalent filter block FAILs)
+    for d in ({}, {'Resources': {}}, {'Other': 1}, {'Resources': []}):
+        for body in ('Properties exists', 'when Properties.Zzz exists {\n      Properties exists\n    }'):
+            t = gen.TYPES[0]
+            tb.append(('rule r {\n  %s {\n    %s\n  }\n}\n' % (t, body), "rule r {\n  Resources.*[ Type == '%s' ] {\n    %s\n  }\n}\n" % (t, body), d))
     for i, (a, b, d) in enumerate(tb):
         pairs.append((a, json.dumps(d))); meta.append((10 ** 6 + i, 'base', a))
         pairs.append((b, json.dumps(d))); meta.append((10 ** 6 + i, 'equivalent-form', b))
@@ -180,7 +186,7 @@ def run_semantic(ctx, progs):
         if lab == 'base':
             base[k] = (verdicts(o, r), text)
     n = 0
-    for (k, lab, text), o, r in zip(meta, outs, raw):
+    for idx, ((k, lab, text), o, r) in enumerate(zip(meta, outs, raw)):
         if lab == 'base':
             continue
         bv, btext = base[k]
@@ -189,8 +195,16 @@ def run_semantic(ctx, progs):
             continue
         n += 1
         if bv != v:
-            ctx.failing('%s: verdicts %s become %s' % (lab, bv, v), {'class': 'equivalent-spelling', 'kind': lab, 'rules': btext, 'variant': text,
-                        'data': [d for (t, d) in pairs if t == text][0]}, found=True)
+            data = pairs[idx][1]
+            cls = 'equivalent-spelling'
+            try:
+                dj = json.loads(data)
+            except ValueError:
+                dj = None
+            if lab == 'equivalent-form' and 'Resources.*[ Type ==' in text and isinstance(dj, dict) and not (isinstance(dj.get('Resources'), dict) and dj['Resources']) \
+               and bv[0] not in ('PASS', 'FAIL', 'SKIP') and v[0] == 'FAIL':
+                cls = 'type-block-unresolved-selection'
+            ctx.failing('%s: verdicts %s become %s' % (lab, bv, v), {'class': cls, 'kind': lab, 'rules': btext, 'variant': text, 'data': data}, found=True)
     ctx.coverage['semantic_variants_compared'] = n
     ctx.coverage['evaluations'] += len(pairs)
     return n
